@@ -617,7 +617,7 @@ pub fn property() -> Property {
       "degenerate streams are finite prefixes followed by ChaCha output (an endless constant stream would hang ff's rejection sampler by construction)",
     ],
     subs: vec![
-      prop_sub("model_agreement", 3000, 60000, |t| strat_with(t.pick(64, 64), false), oracle),
+      prop_sub("model_agreement", 3000, 150000, |t| strat_with(t.pick(64, 64), false), oracle),
       prop_sub("model_agreement_large_t", 16, 400, |_| strat_with(64, true), oracle),
       prop_sub("out_of_range_secret", 2000, 40000, oor_strat, oor_oracle),
       prop_sub("recover_arbitrary_points", 6000, 120000, pts_strat, pts_oracle),
